@@ -194,6 +194,16 @@ Proof. unfold take. destruct (N.ltb_spec (blen r) n); [auto|discriminate]. Qed.
 Lemma skip_split n (r : list byte) : n <= blen r -> exists padb, r = padb ++ skipn (N.to_nat n) r /\ blen padb = n.
 Proof. unfold blen. intros H. exists (firstn (N.to_nat n) r). split; [symmetry; apply firstn_skipn|]. rewrite firstn_length. lia. Qed.
 
+Lemma firstn_app_exact (a b : list byte) n : length a = n -> firstn n (a ++ b) = a.
+Proof. intros <-. rewrite firstn_app, firstn_all, Nat.sub_diag. cbn. apply app_nil_r. Qed.
+Lemma skipn_app_exact (a b : list byte) n : length a = n -> skipn n (a ++ b) = b.
+Proof. intros <-. rewrite skipn_app, skipn_all, Nat.sub_diag. reflexivity. Qed.
+Lemma app_inj_len (a a' b b' : list byte) : length a = length a' -> a ++ b = a' ++ b' -> a = a' /\ b = b'.
+Proof.
+  revert a'. induction a as [|x a IH]; intros [|y a'] Hl H; try discriminate; [auto|].
+  cbn in H. inversion H; subst. destruct (IH a') as [-> ->]; auto.
+Qed.
+
 Definition zeros (n : N) : list byte := repeat x00 (N.to_nat n).
 Lemma blen_zeros n : blen (zeros n) = n.
 Proof. unfold blen, zeros. rewrite repeat_length. lia. Qed.
